@@ -8,6 +8,10 @@ NETS = {
                                                    'g3': ('NOT', ('g2',)), 'g4': ('OR', ('a', 'a'))}),
     # storage order differs from topological order is impossible through the checked API; an input that is an output, a constant,
     # an input without users
+    # n6 with one block that lists a gate twice among its outputs
+    'n6b': N.Net(['a', 'b'], ['g3', 'g1', 'g3'], {'a': ('INPUT', ()), 'b': ('INPUT', ()), 'g1': ('AND', ('a', 'b')), 'g2': ('XOR', ('g1', 'g1', 'a')),
+                                                    'g3': ('NOT', ('g2',)), 'g4': ('OR', ('a', 'a'))},
+                 blocks={'B1': {'inputs': ['a'], 'gates': ['g1', 'g2'], 'outputs': ['g2', 'g2']}}),
     'n5': N.Net(['x', 'y', 'z'], ['x', 'k', 'h'], {'x': ('INPUT', ()), 'y': ('INPUT', ()), 'z': ('INPUT', ()), 'k': ('ALWAYS_TRUE', ()), 'h': ('GT', ('y', 'x'))}),
 }
 
@@ -30,6 +34,10 @@ def cases():
         ('add_inputs/2', 'add_inputs', lambda: C02.AddInputs(2), 'n6', ('zz', 'yy'), 64, False),
         ('replace_inputs/1+1', 'replace_inputs', lambda: C19.ReplaceInputs(1, 1), 'n6', ('zz',), 49, False),
         ('replace_inputs/2+0', 'replace_inputs', lambda: C19.ReplaceInputs(2, 0), 'n5', (), 25, False),
+        ('make_block/1+1+1', 'make_block', lambda: C02.MakeBlock(1, 1, 1), 'n6', ('zz',), 60, False),
+        ('delete_block', 'delete_block', lambda: C02.DeleteBlock(), 'n6b', ('B1', 'zz'), 9, False),
+        ('rename_gate/block', 'rename_gate', lambda: c19_rename.RenameGate(), 'n6b', ('zz',), 49, False),
+        ('remove_gate/block', 'remove_gate', lambda: C02.RemoveGate(), 'n6b', ('zz',), 7, False),
         ('copy/n6', '__copy__', lambda: c02_copy.Copy(), 'n6', (), 1, False, cp),
         ('copy/n5', '__copy__', lambda: c02_copy.Copy(), 'n5', (), 1, False, cp),
     ]
